@@ -482,6 +482,11 @@ func (p *uPacketPacker) MarshalInitialPacketPayload(pl payload, v protocol.Versi
 		return frameBytes, nil
 	}
 
+	// [UQUIC] Each call frames one Initial datagram, whichever builder does it, so the
+	// datagram index - which also selects InitialPackets[i] - advances here.
+	idx := p.initialDatagramIdx
+	p.initialDatagramIdx++
+
 	var originalFrameBytes []byte
 
 	for _, f := range pl.frames {
@@ -541,9 +546,7 @@ func (p *uPacketPacker) MarshalInitialPacketPayload(pl payload, v protocol.Versi
 	// [UQUIC] Use QUICFrameBuilderEx if available: supports N-datagram Initials via
 	// per-datagram index and base offset. Falls back to Build() for single-datagram specs.
 	if ext, ok := p.uSpec.InitialPacketSpec.FrameBuilder.(QUICFrameBuilderEx); ok {
-		result, err := ext.BuildForDatagram(p.initialDatagramIdx, cryptoData, baseOffset)
-		p.initialDatagramIdx++ // advance after building; each call corresponds to one datagram
-		return result, err
+		return ext.BuildForDatagram(idx, cryptoData, baseOffset)
 	}
 	return p.uSpec.InitialPacketSpec.FrameBuilder.Build(cryptoData)
 }
